@@ -212,6 +212,9 @@ def _check(case, r):
             out.append({'class': 'cannot_reconnect', 'detail': x})
     if r.get('sent_after_close'):
         pass   # transmissions on a closed link belong to C10
+    if any(e[0] == 'ev' and e[1] == 'sync_open_ok:not_open' for e in log):
+        # SyncCrazyflie.open_link returned normally although its disconnected handler had already run
+        out.append({'class': 'sync_open_returned_on_dead_link', 'detail': [e[1] for e in log][-12:]})
     sy = r.get('sync')
     if sy and not (hangs or r['dead'] or r['stuck']):
         # quiescent end of the run: the invariant proved for the model (C02_sync_open_flag_sound)
